@@ -84,10 +84,10 @@ prop("C19",
 prop("C20",
      level_text="get_closest_indices_from_points, ProblemFromDataset.evaluate (noiseless and noisy), get_noisy_evaluations_chol, the problem constructors' noise factor, BraninCurrin.evaluate's frame, DecoupledEvaluationProblem.evaluate and normalize/unnormalize are executed symbolically: nearest-row lookup (first minimiser), noise as the linear image of the RNG draw with covariance L L^T, requested components only, inputs never written, mutual inverses.",
      mode="unrolled: up to 4 designs, 2-3 objectives, 1-2 query points; all values symbolic",
-     trusted_base=["z3 5.1.0", "sklearn euclidean_distances contract", "numpy.linalg.cholesky contract", "np.random.normal draws are standard normal, independent (law NOT modelled)"],
+     trusted_base=["z3 5.1.0", "sklearn euclidean_distances contract", "sklearn MinMaxScaler / StandardScaler contracts (default options)", "numpy.load / genfromtxt return the file's table (external)", "numpy.linalg.cholesky contract", "np.random.normal draws are standard normal, independent (law NOT modelled)"],
      not_decided=["the sampling law of np.random.normal (only the linear map applied to the draw is proved)",
-                  "Dataset.__init__ scaling to [0,1] / zero-mean unit-variance (sklearn scalers are external)",
-                  "bundled data files' declared sizes"])
+                  "that (x-min)/(max-min) lies in [0,1] and (y-mean)/std has zero mean / unit variance for N > 2 rows (facts about the two formulas; the sklearn scalers are used by contract)",
+                  "bundled data files' contents and row counts (declared cardinalities)"])
 
 prop("C08",
      level_text="NaiveElimination.__init__ is executed symbolically and its default L proved equal to the property's formula with sigma = sqrt(noise_var) for all noise_var, epsilon, delta, beta; run_one_step's storage of one observation per design per round, the counters, the completion flag and the no-op after completion; P as get_pareto_set of the per-design means of all stored observations (get_pareto_set's exactness is C13).",
@@ -157,7 +157,7 @@ prop("C01",
      mode="lemma; sets, regions, predicate answers, true means arbitrary; arithmetic lemmas for (m,K) in {(2,2),(3,3),(2,3)}",
      trusted_base=["z3 5.1.0", "induction over rounds (schema)", "axiom finite_argmax (one instance)", "axiom rank (H-nondeg, cone with interior)",
                    "H-valid and termination (hypotheses of the property)"],
-     not_decided=["H-valid itself (C04) and termination", "Auer's instance of the lemma (its step contracts are proved in C02/C03; the run-level lemma is not written, so Auer's step obligations are NOT among this check's dependencies)",
+     not_decided=["H-valid itself (C04) and termination", "Auer with per-objective widths (known finding); Auer's alignment precondition (beta_t rows = own widths; C03 finding) is a hypothesis of its step contracts",
                   "identical zero-width regions (excluded by H-nondeg)"])
 
 
@@ -176,7 +176,9 @@ DEPENDS = {
             (r"C09/(Rect|Ell)\.is_dominated\[", _DOM_SOUND), (r"C09/lemma\.box_extreme", r"."),
             (r"C10/(Rect|Ell)\.is_covered\[", _COV_COMPLETE),
             (r"C17/get_alpha", r"."),
-            (r"C04/%s\.modeling$" % _PAV, r".")],
+            (r"C04/(%s|Auer)\.modeling$" % _PAV[1:-1], r"."),
+            (r"C02/Auer\.discarding\[", r"^(safe|mono)/"), (r"C03/Auer\.pareto_updating\[", r"^(safe|mono)/"),
+            (r"C03/Auer\.run_one_step\[m=2,non-empirical", r".")],
     "C05": [(r"C02/(VOGP|EpsilonPAL)\.(discarding|compute_pessimistic_set)$", r"^(safe|mono)/"),
             (r"C03/(VOGP|EpsilonPAL)\.epsiloncovering$", r"^(safe|mono)/"),
             (r"C09/(Rect|Ell)\.is_dominated\[", _DOM_SOUND), (r"C09/lemma\.box_extreme", r"."),
